@@ -70,6 +70,7 @@ type hOpen struct {
 	herr    error
 	finished bool
 	parked  bool
+	waiting bool // inside handleLocalBridgeWait: the record said "on this node", it polls tunnelBridges for a bridge to appear
 	skip    int
 }
 
@@ -186,6 +187,13 @@ func runHist(w *world, in histIn) (out histOut) {
 		_, err := w.routing.LookupWaitingTunnel(context.Background(), tunID[tun])
 		return err == nil
 	}
+	routeSelf := func(tun int) bool { // a record for the tunnel id that names THIS node
+		if w.routing == nil {
+			return false
+		}
+		st, err := w.routing.LookupWaitingTunnel(context.Background(), tunID[tun])
+		return err == nil && st.SourceNodeID == w.node
+	}
 	drainPeers := func() {
 		for {
 			select {
@@ -199,7 +207,29 @@ func runHist(w *world, in histIn) (out histOut) {
 	// await the requests parked on tunnels whose routing record is visible now; returns after they returned
 	settle := func(step int) {
 		for _, o := range opens {
-			if o.finished || !o.parked {
+			if o.finished || !(o.parked || o.waiting) {
+				continue
+			}
+			if o.parked && routeSelf(o.tun) && routeM[o.tun] == o.named && w.fx.Session.VerifBridge(tunID[o.tun]) == nil {
+				o.parked, o.waiting = false, true // its routing poll found a record naming this node: it goes on waiting for a local bridge
+			}
+			if o.waiting {
+				// the wait ends when a bridge is registered under the tunnel id (poll interval <= 200 ms) — or after 5 s
+				if w.fx.Session.VerifBridge(tunID[o.tun]) != nil {
+					if !finish(o, 4*time.Second) {
+						panic(fmt.Sprintf("request of step %d is still inside handleLocalBridgeWait 4 s after a bridge was registered under its tunnel id", o.step))
+					}
+				} else {
+					finish(o, 0)
+				}
+				if o.finished {
+					o.waiting = false
+					if b := w.fx.Session.VerifBridge(tunID[o.tun]); b != nil {
+						if t := b.GetTargetTunnelConn(); t != nil && t.GetStream() == o.c.Stream {
+							checkAttach(step, o, idOf[b.GetMappingID()], "was attached as bridge target at the end of its wait for a local bridge")
+						}
+					}
+				}
 				continue
 			}
 			visible := routeVisible(o.tun)
@@ -255,7 +285,7 @@ func runHist(w *world, in histIn) (out histOut) {
 		np := 0
 		perTun := map[int]int{}
 		for _, o := range opens {
-			if o.parked && !o.finished {
+			if (o.parked || o.waiting) && !o.finished {
 				np++
 				perTun[o.tun]++
 			}
@@ -295,8 +325,12 @@ func runHist(w *world, in histIn) (out histOut) {
 				must(w.routing.RemoveWaitingTunnel(context.Background(), tunID[st.Tun]))
 				delete(routeM, st.Tun)
 			} else {
+				node := otherNode
+				if st.Node == "self" { // a record that says "on THIS node" while no bridge is registered here (stale / not yet created)
+					node = w.node
+				}
 				must(w.routing.RegisterWaitingTunnel(context.Background(), &session.TunnelWaitingState{TunnelID: tunID[st.Tun], MappingID: maps[st.M].ID,
-					SecretKey: keys[st.M], SourceNodeID: otherNode, TargetHost: "127.0.0.1", TargetPort: 18001}))
+					SecretKey: keys[st.M], SourceNodeID: node, TargetHost: "127.0.0.1", TargetPort: 18001}))
 				routeM[st.Tun] = st.M
 			}
 		case "srv":
@@ -411,6 +445,10 @@ func runHist(w *world, in histIn) (out histOut) {
 						break
 					}
 				}
+				if a == 0 && el > 150*time.Millisecond && routeSelf(st.Tun) && w.fx.Session.VerifBridge(tunID[st.Tun]) == nil {
+					o.waiting = true // no acknowledgement yet, a record names this node, no bridge here: it polls tunnelBridges
+					break
+				}
 				if el > 8*time.Second {
 					panic(fmt.Sprintf("step %d: HandlePacket(TunnelOpen) neither returned nor parked within 8 s", i))
 				}
@@ -425,6 +463,8 @@ func runHist(w *world, in histIn) (out histOut) {
 			switch {
 			case o.parked:
 				so.Role = 6
+			case o.waiting:
+				so.Role = 8
 			default:
 				if b := w.fx.Session.VerifBridge(tunID[st.Tun]); b != nil {
 					if byStream(b.GetTargetTunnelConn()) == i+1 {
